@@ -2130,7 +2130,8 @@ parseHandshake:
         SERVER_HELLO_DONE.
  */
         if ((hsType == SSL_HS_CERTIFICATE_REQUEST) &&
-            (ssl->hsState == SSL_HS_SERVER_HELLO_DONE))
+            (ssl->hsState == SSL_HS_SERVER_HELLO_DONE) &&
+            !(ssl->flags & SSL_FLAGS_CLIENT_AUTH)) /* only one per handshake */
         {
 /*
             This is where the client is first aware of requested client
